@@ -193,11 +193,10 @@ func (cs *concurrentStrategy) Inc(APIStream public_types.APIStreamI) error {
 		}
 	}
 
-	cs.setReqStatus(reqID, reqAllowed)
-
-	cs.mutex.Lock()
-	cs.allowedReq[reqID].member = memberKey
-	cs.mutex.Unlock()
+	// status and member are recorded in one critical section: a GC pass that
+	// collects this (already expired) member between two sections would delete
+	// the entry and the member assignment would dereference nil
+	cs.setReqStatus(reqID, reqAllowed, memberKey)
 	return nil
 }
 
@@ -300,11 +299,12 @@ func (cs *concurrentStrategy) buildProcName(processor string) string {
 	return fmt.Sprintf("%s_%s", strings.ReplaceAll(cs.quotaID, ".", ""), processor)
 }
 
-func (cs *concurrentStrategy) setReqStatus(reqID string, reqStatus incResult) {
+func (cs *concurrentStrategy) setReqStatus(reqID string, reqStatus incResult, member string) {
 	cs.mutex.Lock()
 	defer cs.mutex.Unlock()
 	cs.allowedReq[reqID] = &allowedReqStatus{
 		status: reqStatus,
+		member: member,
 	}
 }
 
